@@ -5,6 +5,7 @@ import (
 	"fmt"
 	"math/big"
 
+	ecommon "github.com/ethereum/go-ethereum/common"
 	ecrypto "github.com/ethereum/go-ethereum/crypto"
 
 	"github.com/zenon-network/go-zenon/chain/nom"
@@ -245,6 +246,8 @@ func BridgeIntents() []Intent {
 		{"bridge-wrap", intentWrap}, {"bridge-unwrap", intentUnwrap}, {"bridge-redeem", intentRedeem}, {"bridge-revoke-unwrap", intentRevokeUnwrap},
 		{"bridge-halt", intentHalt}, {"liquidity-stake", intentLiqStake}, {"liquidity-cancel", intentLiqCancel}, {"liquidity-unlock", intentLiqUnlock},
 		{"liquidity-additional-reward", intentLiqReward}, {"liquidity-halt", intentLiqHalt},
+		{"bridge-update-wrap", intentUpdateWrap}, {"bridge-signed-halt", intentSignedHalt}, {"bridge-keygen", intentKeyGen},
+		{"bridge-admin-misc", intentBridgeAdminMisc},
 	}
 }
 
@@ -379,4 +382,143 @@ func intentLiqReward(h *Hist) bool {
 
 func intentLiqHalt(h *Hist) bool {
 	return h.call(BridgeAdmin(), types.LiquidityContract, types.ZnnTokenStandard, big.NewInt(0), definition.ABILiquidity.PackMethodPanic(definition.SetIsHaltedMethodName, h.C.Weighted("lhalt.on", 2, 1) == 1), "liquidity.SetIsHalted()")
+}
+
+// intentUpdateWrap: somebody delivers the orchestrators' signature for a pending wrap request.
+func intentUpdateWrap(h *Hist) bool {
+	c := h.C
+	st := h.A.Chain.GetFrontierAccountStore(types.BridgeContract).Storage()
+	reqs, err := definition.GetWrapTokenRequests(st)
+	if err != nil || len(reqs) == 0 {
+		return false
+	}
+	r := reqs[c.Pick("uw.idx", len(reqs))]
+	ni, err := definition.GetNetworkInfoVariable(st, r.NetworkClass, r.ChainId)
+	if err != nil || ni == nil {
+		return false
+	}
+	ca := ecommon.HexToAddress(ni.ContractAddress)
+	msg, err := implementation.GetWrapTokenRequestMessage(r, &ca)
+	if err != nil {
+		return false
+	}
+	sig, err := TssSign(msg)
+	if err != nil {
+		return false
+	}
+	if c.Weighted("uw.badSig", 5, 1) == 1 {
+		sig, _ = TssSign(types.NewHash([]byte("another message")).Bytes())
+	}
+	return h.call(h.user("uw.from"), types.BridgeContract, types.ZnnTokenStandard, big.NewInt(0),
+		definition.ABIBridge.PackMethodPanic(definition.UpdateWrapRequestMethodName, r.Id, sig), fmt.Sprintf("bridge.UpdateWrapRequest(%s)", r.Id.String()[:8]))
+}
+
+// intentSignedHalt: a non-administrator halts the bridge with the orchestrators' signature over the current nonce.
+func intentSignedHalt(h *Hist) bool {
+	c := h.C
+	st := h.A.Chain.GetFrontierAccountStore(types.BridgeContract).Storage()
+	bi, err := definition.GetBridgeInfoVariable(st)
+	if err != nil || bi == nil {
+		return false
+	}
+	nonce := bi.TssNonce
+	if c.Weighted("sh.staleNonce", 5, 1) == 1 && nonce > 0 {
+		nonce--
+	}
+	msg, err := implementation.GetBasicMethodMessage(definition.HaltMethodName, nonce, definition.NoMClass, h.A.Chain.ChainIdentifier())
+	if err != nil {
+		return false
+	}
+	sig, err := TssSign(msg)
+	if err != nil {
+		return false
+	}
+	return h.call(h.user("sh.from"), types.BridgeContract, types.ZnnTokenStandard, big.NewInt(0),
+		definition.ABIBridge.PackMethodPanic(definition.HaltMethodName, sig), fmt.Sprintf("bridge.Halt(signed, nonce %d)", nonce))
+}
+
+// second orchestrator key (secp256k1) for key rotations
+var tssKey2Raw = []byte("verif-second-tss-key-32-bytes!!!")
+
+func signWith(raw, hash []byte) (string, error) {
+	key, err := ecrypto.ToECDSA(raw)
+	if err != nil {
+		return "", err
+	}
+	sig, err := ecrypto.Sign(hash, key)
+	if err != nil {
+		return "", err
+	}
+	return base64.StdEncoding.EncodeToString(sig), nil
+}
+
+// intentKeyGen: the administrator allows a key generation, or a non-administrator rotates the orchestrators' key
+// with signatures of the old and the new key (back and forth between the two keys the harness holds).
+func intentKeyGen(h *Hist) bool {
+	c := h.C
+	st := h.A.Chain.GetFrontierAccountStore(types.BridgeContract).Storage()
+	bi, err := definition.GetBridgeInfoVariable(st)
+	if err != nil || bi == nil {
+		return false
+	}
+	if !bi.AllowKeyGen || c.Weighted("kg.allowAnyway", 4, 1) == 1 {
+		return h.call(BridgeAdmin(), types.BridgeContract, types.ZnnTokenStandard, big.NewInt(0),
+			definition.ABIBridge.PackMethodPanic(definition.SetAllowKeygenMethodName, c.Weighted("kg.allow", 1, 4) == 1), "bridge.SetAllowKeyGen()")
+	}
+	raw1, _ := base64.StdEncoding.DecodeString("tuSwrTEUyJI1/3y5J8L8DSjzT/AQG2IK3JG+93qhhhI=")
+	oldRaw, newRaw := raw1, tssKey2Raw
+	if bi.CompressedTssECDSAPubKey != TssPubKey {
+		oldRaw, newRaw = tssKey2Raw, raw1
+	}
+	nk, err := ecrypto.ToECDSA(newRaw)
+	if err != nil {
+		return false
+	}
+	newPub := base64.StdEncoding.EncodeToString(ecrypto.CompressPubkey(&nk.PublicKey))
+	msg, err := implementation.GetChangePubKeyMessage(definition.ChangeTssECDSAPubKeyMethodName, definition.NoMClass, h.A.Chain.ChainIdentifier(), bi.TssNonce, newPub)
+	if err != nil {
+		return false
+	}
+	oldSig, err1 := signWith(oldRaw, msg)
+	newSig, err2 := signWith(newRaw, msg)
+	if err1 != nil || err2 != nil {
+		return false
+	}
+	switch c.Weighted("kg.fault", 6, 1, 1) {
+	case 1:
+		oldSig = newSig
+	case 2:
+		newSig = oldSig
+	}
+	return h.call(h.user("kg.from"), types.BridgeContract, types.ZnnTokenStandard, big.NewInt(0),
+		definition.ABIBridge.PackMethodPanic(definition.ChangeTssECDSAPubKeyMethodName, newPub, oldSig, newSig), "bridge.ChangeTssECDSAPubKey(signed rotation)")
+}
+
+// intentBridgeAdminMisc: administrator calls the scripts do not make.
+func intentBridgeAdminMisc(h *Hist) bool {
+	c := h.C
+	admin := BridgeAdmin()
+	var data []byte
+	var descr string
+	switch c.Pick("bam.kind", 6) {
+	case 0:
+		data, descr = definition.ABIBridge.PackMethodPanic("SetRedeemDelay", uint64(c.Int("bam.delay", 0, 8))), "bridge.SetRedeemDelay"
+	case 1:
+		data, descr = definition.ABIBridge.PackMethodPanic(definition.SetBridgeMetadataMethodName, []string{`{}`, `{"a":1}`, `not json`, ``}[c.Pick("bam.meta", 4)]), "bridge.SetBridgeMetadata"
+	case 2:
+		data, descr = definition.ABIBridge.PackMethodPanic(definition.SetNetworkMetadataMethodName, uint32(2), uint32([]int{123, 124, 999}[c.Pick("bam.net", 3)]), `{"k":"v"}`), "bridge.SetNetworkMetadata"
+	case 3:
+		data, descr = definition.ABIBridge.PackMethodPanic(definition.RemoveTokenPairMethodName, uint32(2), uint32([]int{123, 124}[c.Pick("bam.net", 2)]),
+			[]types.ZenonTokenStandard{types.ZnnTokenStandard, types.QsrTokenStandard}[c.Pick("bam.tok", 2)],
+			[]string{"0x5fbdb2315678afecb367f032d93f642f64180aa3", "0x6fbdb2315678afecb367f032d93f642f64180aa3"}[c.Pick("bam.addr", 2)]), "bridge.RemoveTokenPair"
+	case 4:
+		if c.Weighted("bam.really", 3, 1) == 0 {
+			return false
+		}
+		data, descr = definition.ABIBridge.PackMethodPanic(definition.RemoveNetworkMethodName, uint32(2), uint32([]int{123, 124}[c.Pick("bam.net", 2)])), "bridge.RemoveNetwork"
+	default:
+		data, descr = definition.ABIBridge.PackMethodPanic(definition.SetOrchestratorInfoMethodName, uint64(c.Int("bam.window", 1, 10)), uint32(c.Int("bam.keygen", 1, 6)),
+			uint32(c.Int("bam.confZnn", 0, 20)), uint32(c.Int("bam.estimated", 0, 12))), "bridge.SetOrchestratorInfo"
+	}
+	return h.call(admin, types.BridgeContract, types.ZnnTokenStandard, big.NewInt(0), data, descr)
 }
